@@ -175,6 +175,27 @@ def spec_call(E, name, node, st, fr):
     if name == "unknown_callable":
         f = E.ufn("unknown_callable", ty.RefSort, z3.RealSort(), z3.RealSort(), z3.RealSort())
         return V(REAL, f(E.ev(A[0], st, fr).z, E.coerce(E.ev(A[1], st, fr), REAL).z, E.coerce(E.ev(A[2], st, fr), REAL).z))
+    if name == "fmt":
+        # the same injective function the engine uses for an f-string with this template text
+        tmpl = A[0].value
+        parts, rest, holes = [], tmpl, list(A[1:])
+        vals = []
+        segs = tmpl.split("{}")
+        for i, sg in enumerate(segs):
+            if sg:
+                vals.append(ast.Constant(value=sg))
+            if i < len(segs) - 1:
+                vals.append(ast.FormattedValue(value=holes[i], conversion=-1, format_spec=None))
+        return E.ev_JoinedStr(ast.JoinedStr(values=vals), st, fr)
+    if name == "unfmt":
+        # inverse of fmt(template, x0, ...) in hole i (exists because fmt is injective)
+        tmpl, i = A[0].value, A[1].value
+        sv = E.ev(A[2], st, fr)
+        nholes = tmpl.count("{}")
+        f = E.fmt_fn(tmpl, [z3.IntSort()] * nholes)
+        inv = z3.Function(f"{f.name()}_inv{i}", ty.StrSort, f.domain(i))
+        t = INT if f.domain(i) == z3.IntSort() else REAL
+        return V(t, inv(sv.z))
     if name == "rmul":
         return E.mul(E.ev(A[0], st, fr), E.ev(A[1], st, fr))
     if name == "rdiv":
@@ -518,6 +539,8 @@ def call_function(E, q, args, kwargs, st, fr, node, is_init=False):
     fn = E.prog.func(q)
     argmap = bind_params(E, q, fn, args, kwargs, st, fr)
     c = E.spec.fns.get(q)
+    if any(isinstance(n, (ast.Yield, ast.YieldFrom)) for n in ast.walk(fn)):
+        return create_generator(E, q, c, argmap, st, fr, node)
     if c is not None:
         for n, t in c.params.items():
             if n in argmap and argmap[n].z is not None and argmap[n].t != t:
@@ -561,6 +584,27 @@ def call_function(E, q, args, kwargs, st, fr, node, is_init=False):
     if ret is None:
         raise CheckerError(f"{q}: return values of different shapes cannot be merged")
     return ret
+
+
+def create_generator(E, q, c, argmap, st, fr, node):
+    """Calling a generator function runs none of its body: it returns a generator object.
+    The generator's `requires` (its start condition) is checked at creation."""
+    from .engine import V, CheckerError, Frame, short
+    if c is None or not c.gen:
+        gcls = "Generator"
+        if "Generator" not in E.spec.classes:
+            E.spec.cls("Generator", {})
+        E.abstracted.add(f"generator {q}: opaque generator object")
+        return E.new_ref(st, ty.Ref(gcls), "gen")
+    g = E.new_ref(st, ty.Ref(c.gen.get("object_class", "TickGen")), "gen")
+    if "self" in argmap:
+        E.set_field(st, g, "owner", argmap["self"], init=True)
+    mod, _, name = q.partition(":")
+    cfr = Frame(q, mod, name.split(".")[0] if "." in name else None, c, None, old=None, spec=True, entry_locals=dict(argmap))
+    for i, r in enumerate(c.requires):
+        gl = E.sev_bool(r, view(st, dict(argmap)), cfr)
+        E.oblige(fr, st, "pre", f"{short(q)}#start:{i}", gl, info=r)
+    return g
 
 
 def o_with_locals(o, st):
